@@ -995,6 +995,19 @@ class Interp:
                     # dict(a=x, b=y) is the display {"a": x, "b": y}
                     out.append((s2, dict_av(dict(kw), open_=False)))
                     continue
+                if (isinstance(f, ast.Name) and f.id == "dict" and len(pos) == 1 and pos[0].kind == "dict" and "**" not in kw and "*" not in kw
+                        and self.var("dict") not in s2.env and (self.m.resolve_local(self.module, "dict") or "builtins.dict").startswith("builtins")):
+                    # dict(d) / dict(d, a=x) of a tracked dictionary: a shallow copy with the same slots (then the keyword stores)
+                    sl = dslots(pos[0])
+                    sl.update(kw)
+                    out.append((s2, replace(pos[0], val=(tuple(sorted(sl.items(), key=lambda kv: str(kv[0]))), pos[0].val[1]))))
+                    continue
+                if (isinstance(f, ast.Name) and f.id == "dict" and len(pos) == 1 and not kw and pos[0].kind == "const" and isinstance(pos[0].val, tuple)
+                        and all(isinstance(p_, tuple) and len(p_) == 2 and isinstance(p_[0], (str, bytes, int)) for p_ in pos[0].val)
+                        and self.var("dict") not in s2.env and (self.m.resolve_local(self.module, "dict") or "builtins.dict").startswith("builtins")):
+                    # dict((("a", 1), ("b", 2))) of a constant table is the display {"a": 1, "b": 2}
+                    out.append((s2, dict_av({k_: const(v_) for k_, v_ in pos[0].val}, open_=False)))
+                    continue
                 if recv is not None and recv.kind == "dict" and isinstance(f, ast.Attribute) and isinstance(f.value, ast.Name) and self.var(f.value.id) in s2.env:
                     dk = self.var(f.value.id)
                     if f.attr == "update" and "*" not in kw and "**" not in kw and (not pos or (len(pos) == 1 and pos[0].kind == "dict" and not pos[0].val[1])):
